@@ -33,6 +33,18 @@ from props import c03
 LEVEL = "translation_validation"
 READY = True
 
+# True: the size cast N'(integer loop variable) the yosys back end emits is signed, as IEEE 1800-2017 6.24.1
+# says ("the signedness shall pass through unchanged"), and a signed index with its top bit set is negative.
+# False: every operand is taken as unsigned (what tools that use the index bits as they are - Verilator -
+# do); then no `signed-loopvar` violation can arise.  The property statement speaks of the behaviour of the
+# text, which we read as the behaviour the standard defines, hence True.
+STRICT_SIGNED_CAST = True
+
 
 def run(res, tier):
-    c03.run(res, tier, backend="yosys", pid="C12", cross=True, portmap=True)
+    res.note("strict_signed_cast", STRICT_SIGNED_CAST)
+    c03.run(res, tier, backend="yosys", pid="C12", cross=True, portmap=True, uns=not STRICT_SIGNED_CAST)
+
+
+def replay(obj):
+    return c03.replay(obj, backend="yosys", pid="C12")
